@@ -160,9 +160,6 @@ def handlers : List (String × (List Sexp → String)) := [
       let [user, .list extra] := a | none
       pure (toString (nsPairSexp (evalSpec (← user.nat?) (← extra.mapM earg?))))),
   -- class predicates of the known findings (negations of the `_partial` hypotheses)
-  ("c14.class.enumkw", fun a => run do
-      let [.atom b, c] := a | none
-      pure (toString (Sexp.ofBool (enumerateIterableKw b (← shape? c))))),
   ("c14.class.eval", fun a => run do
       let [.list extra] := a | none
       let e ← extra.mapM earg?
